@@ -25,8 +25,14 @@ type c09ySpelling struct {
 var c09ySpellings = []c09ySpelling{
 	{"X:remote", 0, func(r *http.Request) { r.RemoteAddr = "10.1.1.1:5555" }},
 	{"X:xff", 0, func(r *http.Request) { r.RemoteAddr = "172.16.0.9:1"; r.Header.Set("X-Forwarded-For", "10.1.1.1") }},
-	{"X:xff-list", 0, func(r *http.Request) { r.RemoteAddr = "172.16.0.9:2"; r.Header.Set("X-Forwarded-For", "10.1.1.1, 172.16.0.1") }},
-	{"X:xff-spaces", 0, func(r *http.Request) { r.RemoteAddr = "172.16.0.9:3"; r.Header.Set("X-Forwarded-For", "  10.1.1.1 ,172.16.0.1") }},
+	{"X:xff-list", 0, func(r *http.Request) {
+		r.RemoteAddr = "172.16.0.9:2"
+		r.Header.Set("X-Forwarded-For", "10.1.1.1, 172.16.0.1")
+	}},
+	{"X:xff-spaces", 0, func(r *http.Request) {
+		r.RemoteAddr = "172.16.0.9:3"
+		r.Header.Set("X-Forwarded-For", "  10.1.1.1 ,172.16.0.1")
+	}},
 	{"X:real-ip", 0, func(r *http.Request) { r.RemoteAddr = "172.16.0.9:4"; r.Header.Set("X-Real-IP", "10.1.1.1") }},
 	{"Y:remote-v6", 1, func(r *http.Request) { r.RemoteAddr = "[2001:db8::7]:443" }},
 	{"Y:xff-v6", 1, func(r *http.Request) { r.RemoteAddr = "172.16.0.9:5"; r.Header.Set("X-Forwarded-For", "2001:db8::7") }},
